@@ -23,7 +23,7 @@ func init() {
 		"lw/name": {"a", "b", "B", "aa", "z"}, "lw/inner/lim": {"9", "10", "11"},
 		"lst/v": {"2", "3", "4", "6", "-5"}, "lst/t": {"a", "b", "B"}, "lst/big": {"1", "9223372036854775808", "18446744073709551615"},
 		"lst/pc/pv": {"0", "1", "2"}, "uw/on": {"a", "b"}, "uw/gl": {"a"}, "uw/gc/gcl": {"a"}, "lw/inner/augl": {"a", "z"}, "evt/level": {"2", "3", "4", "-3"}, "evt/who": {"a", "b", "z", "a+b", "a b", "50%"}, "evt/ratio": {"0.5", "1", "1.5", "2"},
-		"lw/dc": {"0.5", "1", "1.5", "2"}, "lst/d": {"0.5", "1", "1.5", "2"},
+		"lw/dc": {"0.5", "1", "1.5", "2"}, "lst/sub/v": {"2", "3", "4", "6"}, "lst/d": {"0.5", "1", "1.5", "2"},
 		"evt/cnt": {"0", "9007199254740992", "9007199254740993", "18446744073709551615"},
 	} {
 		gen.Hints[k] = v
